@@ -115,6 +115,9 @@ def mutants(seed, jobs, only=None):
 def main(target, seed, jobs):
     if target == "selftest-determinism":
         return determinism(seed, jobs)
+    if target == "selftest-fidelity":
+        from . import fidelity
+        return fidelity.main()
     if target.startswith("selftest-mutants"):
         only = target.split(":", 1)[1].split(",") if ":" in target else None
         return mutants(seed, jobs, only)
